@@ -27,7 +27,8 @@ theorem good_pushToken (cfg : Cfg) {c : Core} (tok : List Byte) (h : Good c) : G
 theorem good_pushInteger {c : Core} (tok : List Byte) (h : Good c) : Good (pushInteger c tok) := by
   unfold pushInteger
   repeat' split
-  all_goals first | exact good_push _ h | exact good_fail _ _ (by simp)
+  all_goals try simp only []
+  all_goals first | exact good_push _ h | exact good_fail _ .parse (by simp) | exact good_fail _ .unsupported (by simp)
 
 theorem good_pushChar (T : Tables) {c : Core} (tok : List Byte) (h : Good c) : Good (pushChar T c tok) := by
   unfold pushChar
@@ -88,6 +89,7 @@ theorem tablesOK_lookup (T : Tables) (h : tablesOK T = true) (m : Mode) (b : Byt
     | str s => cases s <;> simp [allModes]
     | esc => simp [allModes]
     | rune => simp [allModes]
+    | chrStart => simp [allModes]
   obtain ⟨_, hb⟩ := hall m hm
   have hlt : b.toNat < 256 := UInt8.toNat_lt b
   have := hb b.toNat (by simp [hlt])
@@ -115,6 +117,7 @@ theorem good_plainStep1 (T : Tables) (hT : tablesOK T = true) {s : S1} (p : PMod
     · exact h
   | startAfter t base => exact good_setBase _ h
   | startStr m => exact good_congr h rfl
+  | startChar => exact h
   | raise => exact good_fail _ _ (by simp)
   | bad => simp [placed, hk] at hpl
 
@@ -163,6 +166,18 @@ theorem good_runeStep1 (T : Tables) (hT : tablesOK T = true) {s : S1} (b : Byte)
     | exact good_fail _ _ (by simp)
     | (split <;> exact good_congr h rfl)
 
+theorem good_chrStartStep1 (T : Tables) (hT : tablesOK T = true) {s : S1} (b : Byte)
+    (h : Good s.core) : Good (chrStartStep1 T s b).core := by
+  obtain ⟨a, hl, hpl, _⟩ := tablesOK_lookup T hT .chrStart b
+  unfold chrStartStep1
+  simp only [hl]
+  by_cases h1 : a = .charFirst
+  · simp only [h1, if_true]; exact h
+  · simp only [h1, if_false]
+    by_cases h3 : a = .raise
+    · simp only [h3, if_true]; exact good_fail _ _ (by simp)
+    · simp [placed, h1, h3] at hpl
+
 theorem good_body1 (T : Tables) (hT : tablesOK T = true) (cfg : Cfg) (s : S1) (b : Byte)
     (h : Good s.core) : Good (body1 T cfg s b).core := by
   unfold body1
@@ -172,6 +187,7 @@ theorem good_body1 (T : Tables) (hT : tablesOK T = true) (cfg : Cfg) (s : S1) (b
   · exact good_strStep1 T hT _ b h
   · exact good_escStep1 T hT b h
   · exact good_runeStep1 T hT b h
+  · exact good_chrStartStep1 T hT b h
 
 /-- the halting discipline of a run: never a `table` error, and a one-form exit lies within the
     bytes consumed so far -/
@@ -241,6 +257,7 @@ theorem good_finishCore (T : Tables) (cfg : Cfg) {c : Core} (m : Mode) (tok : Li
   | str m => cases m <;> exact good_fail _ _ (by simp)
   | esc => exact good_fail _ _ (by simp)
   | rune => exact good_fail _ _ (by simp)
+  | chrStart => exact good_fail _ .parse (by simp)
   | plain p => cases p <;> first | exact h | exact good_fail _ _ (by simp)
 
 end SlipVerif.Reader
